@@ -2,6 +2,8 @@
    (unbounded).  Only statements; proofs are `exact <lemma>`.  The contraction numerics (LP/RP environments, transfer matrices)
    are NOT modelled; they are checked against dense numpy by harness/c08.py. *)
 From TenpyV Require Import Base.Prelude Model.JW Model.Corr Proofs.JWP Proofs.CorrP.
+From TenpyV Require Import Model.Sample Proofs.SampleP Proofs.SampleQcP Model.MpsIndex Model.Window Proofs.WindowP
+  Model.CorrTerm Proofs.CorrP2.
 Open Scope Z_scope.
 
 (* correlation_function: for ALL i, j (i<j, i=j, i>j), any opstr and str_on_first, the operator word contracted on every site k
@@ -52,6 +54,99 @@ Proof. exact auto_opstr_spec. Qed.
 Theorem T08_hermitian_only_equal_sites : forall flag s1 s2, use_hermitian flag s1 s2 = true -> flag = true /\ s1 = s2.
 Proof. exact hermitian_only_equal_sites. Qed.
 
+(* ---- sample_measurements (Model/Sample.v; hand-modelled from the source, values oracle-checked by harness/c08.py) ---- *)
+(* the loop visits the sites first..last once each in ascending order; the m-th visited site first+m is measured in the
+   eigenbasis of ops[m mod len(ops)] (the list is repeated periodically starting at first_site, whatever first_site is) *)
+Theorem T08_sample_ops : forall first last nops, 0 < nops ->
+  (forall i, In i (sample_sites first last) <-> first <= i <= last) /\
+  length (sample_op_indices first last nops) = Z.to_nat (last + 1 - first) /\
+  forall m, (m < Z.to_nat (last + 1 - first))%nat ->
+    nth m (sample_op_indices first last nops) (0, 0) = (first + Z.of_nat m, Z.of_nat m mod nops) /\
+    0 <= Z.of_nat m mod nops < nops.
+Proof. exact sample_ops_spec. Qed.
+
+(* the weight.  For EVERY structure of amplitudes K / tensors V with the operations the loop uses that satisfies `amp_laws`
+   (commutative multiplication, the norms that occur are invertible, |.|^2 multiplicative, slicing / attaching a tensor /
+   norm / theta[0,0] linear in theta), every first site, every initial theta and every outcome of ANY length (each prefix
+   having non-zero probability):
+   - the per-site `weight`s of the loop are the conditional amplitudes N_k / N_(k-1), N_k = norm of the un-normalised
+     projected state <sigma_first .. sigma_k|psi>;
+   - the returned weight is their product and equals N_last (telescoping) = sqrt P(outcome);
+   - on a full finite chain the returned weight is the amplitude <sigmas|psi> itself (theta[0,0] of the un-normalised
+     projection, phase included);
+   - with complex_amplitude=False the result is |.|^2 of that, applied ONCE: the product of the conditional probabilities
+     |N_k / N_(k-1)|^2 = |N_last|^2, resp. |<sigmas|psi>|^2. *)
+Theorem T08_sample_weights :
+  forall (K V : Type) (kone : K) (kmul : K -> K -> K) (kinv abs2 : K -> K) (pos : K -> Prop) (vnorm : V -> K)
+         (vscale : K -> V -> V) (vscalar : V -> K) (proj : Z -> Z -> V -> V) (attach : Z -> V -> V),
+  amp_laws K V kone kmul kinv abs2 pos vnorm vscale vscalar proj attach ->
+  forall (first : Z) (theta0 : V) (sig : list Z),
+  sig <> [] ->
+  Forall pos (joint_norms K V vnorm proj attach first theta0 sig) ->
+  let fac := sample_factors K V kinv vnorm vscale proj attach first theta0 sig in
+  let amp := raw_final V proj attach first theta0 sig in
+  let weight := sample_weight K V kone kmul kinv abs2 vnorm vscale vscalar proj attach in
+  fac = ratios K kmul kinv kone (joint_norms K V vnorm proj attach first theta0 sig) /\
+  weight false true first theta0 sig = kprod K kone kmul fac /\
+  weight false true first theta0 sig = vnorm amp /\
+  weight true true first theta0 sig = vscalar amp /\
+  weight false false first theta0 sig = kprod K kone kmul (map abs2 fac) /\
+  weight false false first theta0 sig = abs2 (vnorm amp) /\
+  weight true false first theta0 sig = abs2 (vscalar amp).
+Proof. exact sample_weights_spec. Qed.
+
+(* ---- expectation_value(ops, sites) / get_theta windows (Model/Window.v on top of Model/MpsIndex.v of property C07) ---- *)
+(* infinite MPS, any integer start s, any n-site operator, any unit cell L and any length of `ops`: the operator is
+   ops[(s mod L) mod len(ops)], the k-th tensor of theta is unit-cell site (s+k) mod L of cell (s+k) div L; consecutive
+   tensors are neighbours also across the cell boundary; translating s by m cells only adds m to the cell counters *)
+Theorem T08_window : forall L nops s n, 0 < L -> 0 < nops ->
+  let reads := map (fun t => (t mod L, t / L)) (wrange s n) in
+  ev_site false L nops s n = Some ((s mod L) mod nops, (s mod L) / nops, s / L, reads) /\
+  length reads = n /\
+  (forall k, (k < n)%nat ->
+     let '(r, c) := nth k reads (0, 0) in
+     c * L + r = s + Z.of_nat k /\ 0 <= r < L /\
+     ((S k < n)%nat -> nth (S k) reads (0, 0) = if r =? L - 1 then (0, c + 1) else (r + 1, c))) /\
+  (forall m, ev_site false L nops (s + m * L) n =
+             Some ((s mod L) mod nops, (s mod L) / nops, s / L + m, map (fun a => (fst a, snd a + m)) reads)).
+Proof. exact window_infinite_spec. Qed.
+
+(* finite / segment chains: windows inside [0, L) are read as they are (cell 0), a window sticking out on the right is an
+   error; the default `sites` are exactly the starts whose window fits *)
+Theorem T08_window_finite : forall L nops s n, 0 < L -> 0 < nops -> (1 <= n)%nat -> 0 <= s ->
+  (s + Z.of_nat n <= L ->
+     ev_site true L nops s n = Some (s mod nops, s / nops, 0, map (fun t => (t, 0)) (wrange s n))) /\
+  (L < s + Z.of_nat n -> ev_site true L nops s n = None) /\
+  (forall s', In s' (ev_default_sites true L n) <-> 0 <= s' /\ s' + Z.of_nat n <= L) /\
+  (forall s', In s' (ev_default_sites false L n) <-> 0 <= s' < L).
+Proof. exact window_finite_spec. Qed.
+
+(* ---- term_correlation_function_right / _left (Model/CorrTerm.v on top of term_to_ops_list) ---- *)
+(* the symmetry: for the same offsets (i, j) of the two terms -- whatever the first entries i0 / j0 of the lists i_L / j_R
+   that the functions use to set up the strings -- the left and the right variant contract the same operator word on every
+   site k, namely the documented one (string of term_R across term_L and the gap iff term_R is fermion-odd) *)
+Theorem T08_tcf_left_right_agree : forall tL tR i0 i j0 j k wl wr, tL <> [] -> tR <> [] ->
+  tcf_left_words tL tR i0 i j k = Some wl -> tcf_right_words tL tR i j0 j k = Some wr ->
+  wl = wr /\ wr = tcf_doc_words tL tR i j k.
+Proof. exact tcf_left_right_agree. Qed.
+
+(* both succeed exactly as documented: equal fermion parity, term_L strictly left of term_R *)
+Theorem T08_tcf_defined : forall tL tR i j k, tL <> [] -> tR <> [] ->
+  total_parity tL = total_parity tR -> max_site tL + i < min_site tR + j ->
+  (exists w, tcf_right_words tL tR i j j k = Some w) /\ (exists w, tcf_left_words tL tR i i j k = Some w).
+Proof. exact tcf_defined. Qed.
+
+(* and the contracted words are, up to JW^2 = 1 / JW f = -f JW, the site factors of the Jordan-Wigner product
+   (term_L shifted by i)(term_R shifted by j) with NO sign lost; left of term_L nothing is contracted and the product has
+   no string there *)
+Theorem T08_tcf_JW_product : forall tL tR i j k, tL <> [] -> tR <> [] ->
+  total_parity tL = total_parity tR -> max_site tL + i < min_site tR + j ->
+  let w := tcf_doc_words tL tR i j k in
+  let pw := phys_word (shift_term i tL ++ shift_term j tR) k in
+  (min_site tL + i <= k -> nf_sign w = nf_sign pw /\ nf_jw w = nf_jw pw /\ nf_ops w = nf_ops pw) /\
+  (k < min_site tL + i -> w = [] /\ nf pw = (false, false, [])).
+Proof. exact doc_words_are_JW_product. Qed.
+
 (* non-vacuity *)
 Example T08_example_ops_list :
   term_to_ops_list [mkItem 7 3 true; mkItem 8 1 true; mkItem 9 3 false] true None =
@@ -63,6 +158,45 @@ Example T08_example_corr :
   [[]; [JWl; Op 2 true]; [JWl]; [Op 1 true]; []].
 Proof. vm_compute. reflexivity. Qed.
 
+(* a structure satisfying amp_laws: rational amplitudes (Qc), a product state with negative amplitudes, norm = |.| *)
+Example T08_example_sample_laws :
+  amp_laws Qcanon.Qc Qcanon.Qc qc_one Qcanon.Qcmult Qcanon.Qcinv qc_abs2 qc_pos Qcabs.Qcabs Qcanon.Qcmult (fun v => v)
+           qc_proj qc_attach.
+Proof. exact qc_laws. Qed.
+
+Example T08_example_sample_pos :
+  Forall qc_pos (joint_norms Qcanon.Qc Qcanon.Qc Qcabs.Qcabs qc_proj qc_attach 0 qc_one [0; 1; 1]).
+Proof. exact qc_example_pos. Qed.
+
+Example T08_example_sample_values :
+  qc_weight true true 0 qc_one [0; 1; 1] = qc_frac (-48) 125 /\
+  qc_weight false true 0 qc_one [0; 1; 1] = qc_frac 48 125 /\
+  qc_weight false false 0 qc_one [0; 1; 1] = qc_frac 2304 15625 /\
+  qc_weight true false 0 qc_one [0; 1; 1] = qc_frac 2304 15625.
+Proof. exact qc_example_values. Qed.
+
+Example T08_example_sample_ops : sample_op_indices 3 7 2 = [(3, 0); (4, 1); (5, 0); (6, 1); (7, 0)].
+Proof. vm_compute. reflexivity. Qed.
+
+Example T08_example_window : ev_site false 3 2 (-2) 4 = Some (1, 0, -1, [(1, -1); (2, -1); (0, 0); (1, 0)]).
+Proof. vm_compute. reflexivity. Qed.
+
+Example T08_example_tcf :
+  let tL := [mkItem 1 0 true; mkItem 2 1 false] in let tR := [mkItem 3 1 false; mkItem 4 0 true] in
+  map (fun k => tcf_left_words tL tR 2 1 5 k) [0; 1; 2; 3; 4; 5; 6; 7] =
+  map (fun k => tcf_right_words tL tR 1 4 5 k) [0; 1; 2; 3; 4; 5; 6; 7] /\
+  map (fun k => tcf_right_words tL tR 1 4 5 k) [1; 2; 3; 4; 5; 6] =
+  [Some [Op 1 true; JWl]; Some [Op 2 false; JWl]; Some [JWl]; Some [JWl]; Some [Op 4 true]; Some [Op 3 false]].
+Proof. vm_compute. split; reflexivity. Qed.
+
+(* as the code has it: the overlap test of the LEFT variant is off by one (`> j` where the right variant effectively has `>= j`):
+   a one-site overlap of term_L and term_R is rejected by the right variant and accepted by the left one, which then contracts
+   only the operators of term_L on the common site (replayed on the code: ValueError vs. a number) *)
+Example T08_example_tcf_left_accepts_overlap :
+  let tL := [mkItem 1 0 false; mkItem 2 1 false] in let tR := [mkItem 3 0 false; mkItem 4 1 false] in
+  tcf_right_words tL tR 1 2 2 2 = None /\ tcf_left_words tL tR 1 1 2 2 = Some [Op 2 false].
+Proof. vm_compute. split; reflexivity. Qed.
+
 Print Assumptions T08_corr_order.
 Print Assumptions T08_corr_fermion.
 Print Assumptions T08_term_ops_list.
@@ -70,3 +204,10 @@ Print Assumptions T08_term_normal_form.
 Print Assumptions T08_no_string_left_of_term.
 Print Assumptions T08_auto_opstr.
 Print Assumptions T08_hermitian_only_equal_sites.
+Print Assumptions T08_sample_ops.
+Print Assumptions T08_sample_weights.
+Print Assumptions T08_window.
+Print Assumptions T08_window_finite.
+Print Assumptions T08_tcf_left_right_agree.
+Print Assumptions T08_tcf_defined.
+Print Assumptions T08_tcf_JW_product.
